@@ -1,11 +1,36 @@
 # -*- coding: utf-8 -*-
 
-from typing import Any, Dict, List, Optional
+from typing import Any, Dict, List, Mapping, Optional, Sequence
 
 from ..exc import ValidationError
-from ..lang.ast import Document, Field, OperationDefinition
+from ..lang.ast import (
+    Document,
+    FragmentDefinition,
+    OperationDefinition,
+    Selection,
+)
 from ..schema import Schema
-from .collect_fields import selected_fields
+from .collect_fields import collect_fields_untyped
+
+
+def _nesting_levels(
+    selections: Sequence[Selection],
+    fragments: Mapping[str, FragmentDefinition],
+    variables: Mapping[str, Any],
+) -> int:
+    levels = 0
+    collected = collect_fields_untyped(selections, fragments, variables)
+    for fields in collected.values():
+        children = [
+            child
+            for field in fields
+            if field.selection_set is not None
+            for child in field.selection_set.selections
+        ]
+        levels = max(
+            levels, 1 + _nesting_levels(children, fragments, variables)
+        )
+    return levels
 
 
 class MaxDepthValidationRule:
@@ -72,16 +97,17 @@ class MaxDepthValidationRule:
             ):
                 continue
 
-            paths = (
-                p
-                for f in op.selection_set.selections
-                if isinstance(f, Field)
-                for p in selected_fields(
-                    f, fragments=fragments, variables=variables, maxdepth=None,
+            # Nesting levels below the top level fields: flat operations have a
+            # depth of 0. Fragments are traversed at every level (including the
+            # top of the operation) and all the fields sharing a response name
+            # contribute their sub selection.
+            depth = max(
+                0,
+                _nesting_levels(
+                    op.selection_set.selections, fragments, variables
                 )
+                - 1,
             )
-
-            depth = max(x.count("/") + 1 for x in paths)
 
             if depth > self.max_depth:
                 errors.append(
